@@ -17,6 +17,7 @@
 (*   InitForce      array_force_moments                                    *)
 (*   InitLlf        log-likelihood: which entries of a sample count        *)
 (*   InitBounds     target bounds of uniform / arcsine / U-quadratic       *)
+(*   InitFit        Normalizer.fit: which parameters are fitted / frozen   *)
 (*                                                                         *)
 (* Numbers: the discrete sections use integers in QUARTER units (4 = 1.0), *)
 (* the normalizer sections reduced rationals <<n, d>> with d > 0; NaN is   *)
@@ -46,7 +47,8 @@ CONSTANTS
   ForceMeans,  \* requested means (rationals)
   ForceVars,   \* requested variances (rationals)
   LlfData,     \* set of data vectors (rationals and NaN tokens) of the log-likelihood cases
-  BoundMeans, BoundVarPool, BoundAs, BoundBs   \* rationals: target-bound cases (uniform / arcsin / uquad)
+  BoundMeans, BoundVarPool, BoundAs, BoundBs,  \* rationals: target-bound cases (uniform / arcsin / uquad)
+  FitLams, FitShifts                           \* rationals: start values of the fit cases
 
 VARIABLE c     \* the case
 
@@ -477,6 +479,38 @@ BoundsHonoured ==
                             IN  /\ c.mid = c.mean
                                 /\ c.method = "arcsin" => RDiv(RMul(w, w), RI(8)) = c.var
                                 /\ c.method = "uquad"  => RDiv(RMul(RI(3), RMul(w, w)), RI(20)) = c.var
+
+-----------------------------------------------------------------------------
+(* C18: Normalizer.fit(data, skip).  "skip: names of parameters to be skipped in fitting".
+   The parameters (sorted by name) are split into the fitted ones and the frozen ones; a frozen
+   parameter keeps its value exactly, fitting never lowers the log-likelihood below its value at
+   the start parameters, with nothing left to fit the call changes nothing and returns {},
+   otherwise it returns every parameter by name.  Names in skip that the normalizer does not
+   have are ignored. *)
+ParamNames(norm) == CASE norm = "LogNormal"   -> <<>>
+                      [] norm = "BoxCoxShift" -> <<"lmbda", "shift">>
+                      [] OTHER                -> <<"lmbda">>
+
+FitCase(norm, skip, l0, s0) ==
+  LET names  == ParamNames(norm)
+      Free(n) == n \notin skip
+      fitted == SelectSeq(names, Free)
+  IN  [sec |-> "fit", norm |-> norm, names |-> names, skip |-> skip, fitted |-> fitted,
+       frozen |-> {n \in RangeOf(names) : n \in skip}, noop |-> fitted = <<>>,
+       lam0 |-> l0, shift0 |-> s0]
+
+InitFit ==
+  c \in {FitCase(p[1], p[2], p[3], p[4]) :
+           p \in {q \in {"LogNormal", "BoxCox", "BoxCoxShift", "YeoJohnson", "Modulus", "Manly"}
+                         \X (SUBSET {"lmbda", "shift"}) \X FitLams \X FitShifts :
+                    /\ (q[1] # "BoxCoxShift" => q[4] = RI(0))
+                    /\ (q[1] = "LogNormal" => q[3] = RI(1))}}
+
+FitPartition ==
+  c.sec = "fit" => /\ RangeOf(c.fitted) \cap c.skip = {}
+                   /\ RangeOf(c.fitted) \cup c.frozen = RangeOf(c.names)
+                   /\ RangeOf(c.fitted) \cap c.frozen = {}
+                   /\ c.noop <=> (RangeOf(c.names) \subseteq c.skip)
 
 -----------------------------------------------------------------------------
 Next == UNCHANGED c
